@@ -280,10 +280,11 @@ class C13(Prop):
     findings_module = 'LokiModel.Findings.C13'
     driver = 'Drivers/C13.lean'
     theorems = ['C13_classify_spec', 'C13_guards_exhaustive_exclusive', 'C13_classify_proc', 'C13_classify_derived_name',
-                'C13_classify_array', 'C13_classify_scalar', 'C13_classify_deferred', 'C13_class', 'C13_create_class', 'C13_type_shared_partial', 'C13_type_shared_history',
+                'C13_classify_array', 'C13_classify_scalar', 'C13_classify_deferred', 'C13_class_full_false',
+                'C13_class_partial', 'C13_create_class', 'C13_type_shared_partial', 'C13_type_shared_history',
                 'C13_type_shared_full_false', 'C13_unattached_stable', 'C13_create_unattached_reports',
                 'C13_create_reports', 'C13_create_inherits_and_pins', 'C13_rescope_keeps_existing',
-                'C13_rescope_inserts_missing', 'C13_rescope_array_to_scalar', 'C13_tables_agree',
+                'C13_rescope_inserts_missing', 'C13_rescope_array_stays_array', 'C13_tables_agree',
                 'C13_create_name_partial', 'C13_create_name_full_false', 'C13_read_pure_partial',
                 'C13_read_pure_full_false', 'C13_no_recursion']
     design_ref = 'DESIGN.md 4.B C13'
@@ -291,9 +292,9 @@ class C13(Prop):
                   'of Variable.__new__ equals a five-row decision table (rows carry the negations of the rows above), rows exhaustive and '
                   'exclusive (C13_guards_exhaustive_exclusive), each row spelled out (C13_classify_proc/_derived_name/_array/_scalar/'
                   '_deferred); C13_create_class - every symbol the factory returns has the class of that table applied to the type it '
-                  'resolved; C13_class - for every input the tier chain is the decision table of the property statement (subscripts '
-                  'given = non-empty tuple), full strength since the fix: commit for empty-dimensions-array (old behaviour kept in '
-                  'LokiModel/Findings/C13.lean). C13_no_recursion - reading a type, creating, cloning and rescoping always return, for '
+                  'resolved. Against the table of the property statement (subscripts given = non-empty) the code differs: '
+                  'C13_class_full_false, and C13_class_partial holds outside class empty-dimensions-array (a repair popping '
+                  'dimensions=() was reverted, Loki relies on clone(dimensions=()) giving an Array). C13_no_recursion - reading a type, creating, cloning and rescoping always return, for '
                   'every type-definition environment (full strength since the fix: commit for deferred-member-recursion). Sharing: '
                   'C13_type_shared_partial / _history - in every state (so after every history) after scope[name]=t every symbol of that '
                   'name attached to a scope resolving the name to that scope reports t and the read is pure, outside class '
@@ -302,7 +303,7 @@ class C13(Prop):
                   'its own type in every scope state; C13_create_reports / _unattached_reports / _inherits_and_pins (a symbol created '
                   'without type copies the declaration found up the chain into its own scope and no longer sees updates elsewhere). '
                   'Rescoping: C13_rescope_keeps_existing (an entry the target chain has wins over the own type, the only write is a copy '
-                  'into the target table), C13_rescope_inserts_missing (parentless symbols), C13_rescope_array_to_scalar (example). '
+                  'into the target table), C13_rescope_inserts_missing (parentless symbols), C13_rescope_array_stays_array (witness). '
                   'Witness-level only: reads rewriting sibling member entries (C13_read_pure_partial outside member fallback, '
                   'C13_read_pure_full_false), qualified name without parent (C13_create_name_partial for plain names, '
                   'C13_create_name_full_false). The model is tied to the code by an '
@@ -597,7 +598,10 @@ class C13(Prop):
                 if got != ref and consistent:
                     shape = None if t is None else t.__dict__.get('shape')
                     cls = None
-                    if has_parent and new.scope is not None and (rec0 is None or not rec0.dtype):
+                    if got == 'Array' and not new.dimensions and not shape and not (
+                            has_parent and new.scope is not None and (rec0 is None or not rec0.dtype)):
+                        cls = 'empty-dimensions-array'
+                    elif has_parent and new.scope is not None and (rec0 is None or not rec0.dtype):
                         cls = 'deferred-entry-on-member'    # DEFERRED on record, the type definition is reported
                     elif not has_parent and '%' in given:
                         cls = 'qualified-name-without-parent'
@@ -686,8 +690,9 @@ class C13(Prop):
         return False
 
     def classes(self):
-        # repaired by fix: commits (a reappearance is a plain VIOLATION): empty-dimensions-array, deferred-member-recursion
-        return ['qualified-name-without-parent', 'member-lookup-rewrites-siblings', 'deferred-entry-on-member']
+        # repaired by a fix: commit (a reappearance is a plain VIOLATION): deferred-member-recursion
+        return ['empty-dimensions-array', 'qualified-name-without-parent', 'member-lookup-rewrites-siblings',
+                'deferred-entry-on-member']
 
 
 PROP = C13()
